@@ -354,7 +354,8 @@ def first_default(times, jump_log, a):
 
 class DefaultTimes(Lemma):
     prop = "C17"
-    cases = tuple(("DefaultTime", n, 1) for n in (2, 3, 4)) + (("NthDefaultTimes", 2, 2), ("NthDefaultTimes", 3, 2), ("NthDefaultTimes", 2, 3), ("NthDefaultTimes:identity", 2, 2))
+    cases = tuple(("DefaultTime", n, 1) for n in (2, 3, 4)) + (("NthDefaultTimes", 2, 2), ("NthDefaultTimes", 3, 2), ("NthDefaultTimes", 2, 3), ("NthDefaultTimes:identity", 2, 2)) \
+        + tuple((f"DefaultTimeNthUnderlying:{idx}:{rep}", n, 2) for n in (3, 4) for idx in (1, 2) for rep in ("log", "identity"))
 
     def __init__(self):
         self.name = "property:default-times"
@@ -376,6 +377,22 @@ class DefaultTimes(Lemma):
             jp = mk_path(vc, "jump_path", (n,))
             v2 = vc.method(o, "value", times, jp, jp)
             vc.check(nm + "::identity-representation-agrees", same(v2, first_default(ts, list(log_of(vc, jp)), a)))
+        elif cls.startswith("DefaultTimeNthUnderlying"):
+            # the default time of ONE name of a d-name model, one unit per name and representation
+            _, idx, rep = cls.split(":")
+            idx = int(idx)
+            nm = f"{self.name}[DefaultTimeNthUnderlying,{n},{d}]"
+            levels = vc.reals("default_levels", d)
+            vc.assume(And(*[x < 0 for x in levels]))
+            o = vc.new(UND + "DefaultTimeNthUnderlying", list(levels), idx)
+            if rep == "log":
+                jl = mk_path(vc, "log_jump_path", (d, n), positive=False)
+                v = vc.method(o, "_value_log", times, jl, jl)
+                vc.check(nm + f"::name{idx}:log-representation:first-jump-below-its-threshold-else-infinite", same(v, first_default(ts, list(jl[idx - 1]), levels[idx - 1])))
+            else:
+                jp = mk_path(vc, "jump_path", (d, n))
+                v2 = vc.method(o, "value", times, jp, jp)
+                vc.check(nm + f"::name{idx}:identity-representation:first-jump-below-its-threshold-else-infinite", same(v2, first_default(ts, list(log_of(vc, jp)[idx - 1]), levels[idx - 1])))
         else:
             levels = vc.reals("default_levels", d)
             vc.assume(And(*[x < 0 for x in levels]))
@@ -434,6 +451,19 @@ class DefaultTimes(Lemma):
             return (not (v == want), {"times": times.tolist(), "log_jump_path": jl.tolist(), "a": a, "native": float(v), "expected": float(want)})
         levels = [min(fl(v), -1e-9) for v in model.get("default_levels", [-0.5] * d)][:d]
         jl = np.array([fl(v) for v in model.get("log_jump_path", [0.0] * (d * n))][: d * n]).reshape(d, n)
+        if cls.startswith("DefaultTimeNthUnderlying"):
+            # witness with two jumps below the threshold, the later one larger (and the solver's own path)
+            cands = [jl, np.array([[0.0, -0.15, -0.15, -0.55][:n], [0.0, -0.6, -0.6, -1.5][:n]])[:d]]
+            for path_ in cands:
+                lv = levels if path_ is jl else [-0.1] * d
+                for k in range(1, d + 1):
+                    o = und.DefaultTimeNthUnderlying(list(lv), k)
+                    want = next((times[i + 1] for i in range(n - 1) if path_[k - 1][i + 1] - path_[k - 1][i] < lv[k - 1]), np.inf)
+                    got_log = float(o._value_log(times, path_, path_))
+                    got_id = float(o.value(times, np.exp(path_), np.exp(path_)))
+                    if got_log != want or got_id != want:
+                        return (True, {"levels": list(lv), "name": k, "times": times.tolist(), "log_jump_path": np.asarray(path_).tolist(), "log_representation": got_log, "identity_representation": got_id, "first_jump_below_the_threshold": float(want)})
+            return (False, {"levels": levels})
         if "identity-representation" in clause:
             try:
                 jp = np.exp(jl)
@@ -649,4 +679,71 @@ class MultilevelPathProcess(Lemma):
 
 
 UNITS += [MultilevelPathProcess()]
+
+class ProductRepresentationHistory(Lemma):
+    """Product.update (real body) under a history: "the value does not depend on which process the product was priced with
+    before".  (a) two products SHARE one underlying object and are set up alternately for a logarithmic and an identity
+    process; (b) the product's underlying is replaced by a fresh one after a set-up.  After update(LOG) the product values a
+    log-path as its exponential, after update(IDENTITY) a path as it is."""
+    prop = "C17"
+    cases = ("shared underlying", "underlying replaced")
+
+    def __init__(self):
+        self.name = "property:representation-follows-the-latest-set-up"
+
+    def prove(self, vc, case):
+        PD_, PY_ = "rpylib.product.product:", "rpylib.product.payoff:"
+        nm = f"{self.name}[{case}]"
+        LOG = vc.enum(PR + "ProcessRepresentation", "LOG")
+        IDENT = vc.enum(PR + "ProcessRepresentation", "IDENDITY")
+        spot = vc.new(UND + "Spot")
+        strike = vc.real("strike")
+        mk = lambda u: vc.new(PD_ + "Product", u, vc.new(PY_ + "Vanilla", strike, vc.enum(PY_ + "PayoffType", "CALL")), 1.0)
+        path = mk_path(vc, "path", (2,))
+        times = [0.0, 1.0]
+        logp = log_of(vc, path)
+        if case == "shared underlying":
+            a, b = mk(spot), mk(spot)
+            vc.method(a, "update", LOG)
+            vc.method(b, "update", IDENT)
+            vc.method(a, "update", LOG)            # the same kind of process as a's previous set-up
+            ua = vc.method(a, "underlying_value", times, logp, logp)
+            vc.check(nm + "::set-up-again-for-a-log-process:values-the-log-path-as-the-spot", same(ua, path[-1]))
+            vc.method(b, "update", IDENT)
+            ub = vc.method(b, "underlying_value", times, path, path)
+            vc.check(nm + "::set-up-again-for-an-identity-process:values-the-path-as-it-is", same(ub, path[-1]))
+        else:
+            a = mk(spot)
+            vc.method(a, "update", LOG)
+            vc.interp.setattr(a, "payoff_underlying", vc.new(UND + "Spot"))
+            vc.method(a, "update", LOG)
+            ua = vc.method(a, "underlying_value", times, logp, logp)
+            vc.check(nm + "::set-up-for-a-log-process-after-the-underlying-was-replaced:values-the-log-path-as-the-spot", same(ua, path[-1]))
+
+    def replay(self, model, clause, case):
+        und = native_mod("rpylib.product.underlying")
+        prd = native_mod("rpylib.product.product")
+        pay = native_mod("rpylib.product.payoff")
+        PRn = native_mod("rpylib.process.process").ProcessRepresentation
+        path = np.array([100.0, 120.0])
+        times = [0.0, 1.0]
+        mk = lambda u: prd.Product(u, pay.Vanilla(100.0, pay.PayoffType.CALL), 1.0)
+        if case == "shared underlying":
+            s_ = und.Spot()
+            a, b = mk(s_), mk(s_)
+            a.update(PRn.LOG); b.update(PRn.IDENDITY); a.update(PRn.LOG)
+            ua = float(a.underlying_value(times, np.log(path), np.log(path)))
+            b.update(PRn.IDENDITY)
+            ub = float(b.underlying_value(times, path, path))
+            return (abs(ua - 120.0) > 1e-9 or abs(ub - 120.0) > 1e-9, {"spot_path": path.tolist(), "value_for_the_log_process": ua, "value_for_the_identity_process": ub})
+        a = mk(und.Spot())
+        a.update(PRn.LOG)
+        a.payoff_underlying = und.Spot()
+        a.update(PRn.LOG)
+        ua = float(a.underlying_value(times, np.log(path), np.log(path)))
+        return (abs(ua - 120.0) > 1e-9, {"spot_path": path.tolist(), "value_for_the_log_process_after_replacing_the_underlying": ua})
+
+
+UNITS += [ProductRepresentationHistory()]
+
 
